@@ -151,7 +151,10 @@ AllSet(a, p) == \A i \in 1..K(a) : a.P[i][p] # Unset
 OverIdx(a, lo, hi) == {x[1] : x \in {Between(a, lo, hi)[j] : j \in 1..Len(Between(a, lo, hi))}}
 
 (* ---------------- behaviour ---------------- *)
-Init == /\ \E m \in Meshes(H), q \in Profiles, c \in FuelChoices :
+\* fuel layouts only matter for Snap: they are enumerated for the profiles Snap is explored from, else fixed (fuel assembly, block 1)
+Init == /\ \E m \in Meshes(H), q \in Profiles, c \in FuelChoices \cup {3} :
+             /\ (q \in SnapProfiles /\ "Snap" \in Ops) => c \in FuelChoices
+             /\ ~(q \in SnapProfiles /\ "Snap" \in Ops) => c = 3
              /\ c \div 2 <= Len(m)
              /\ q >= 10 => q - 10 <= Len(m)
              /\ src = MkAsm(m, q, c)
@@ -166,14 +169,14 @@ MakeUniform(mesh, jit) ==
     /\ UNCHANGED <<src, pre, ini>>
 
 Solve(q) ==
-    /\ "Solve" \in Ops /\ stage = "uniform"
+    /\ "Solve" \in Ops /\ stage = "uniform" /\ pre = NoAsm
     /\ dst' = [dst EXCEPT !.P = [j \in 1..K(dst) |-> [p \in Par |-> ProfPar(q, p, j, K(dst))]]]
     /\ stage' = "solved"
     /\ hist' = Append(hist, [n |-> "Solve", q |-> q])
     /\ UNCHANGED <<src, orig, pre, ini>>
 
 MapBack ==
-    /\ "MapBack" \in Ops /\ stage \in {"uniform", "solved"}
+    /\ "MapBack" \in Ops /\ stage \in {"uniform", "solved"} /\ pre = NoAsm
     /\ src' = MapInto(dst, src)
     /\ stage' = "back"
     /\ hist' = Append(hist, [n |-> "MapBack"])
@@ -192,10 +195,14 @@ SnapRefused(t, flag) ==      \* one block: self[-1].p.topIndex == 0  =>  warning
     /\ hist' = Append(hist, [n |-> "Snap", tops |-> t, flag |-> flag])
     /\ UNCHANGED <<src, dst, orig, stage, ini>>
 
-Next == \/ \E m \in Meshes(Top(src)), j \in Jitters : MakeUniform(m, j)
-        \/ \E q \in SolveProfiles : Solve(q)
-        \/ MapBack
-        \/ \E t \in SnapMeshes(K(src), H), f \in SnapFlags : Snap(t, f) \/ SnapRefused(t, f)
+\* (the guards are repeated in front of the quantifiers so that TLC does not enumerate meshes in states where the action is disabled)
+\* exploration bound, not semantics: after a Snap only the mass-conserving variant is re-meshed further
+DoMakeUniform == stage = "orig" /\ "MakeUniform" \in Ops /\ (IF pre = NoAsm THEN TRUE ELSE hist[Len(hist)].flag = "true") /\ \E m \in Meshes(Top(src)), j \in Jitters : MakeUniform(m, j)
+DoSolve       == stage = "uniform" /\ \E q \in SolveProfiles : Solve(q)
+CanSnap       == "Snap" \in Ops /\ stage = "orig" /\ pre = NoAsm /\ ini.prof \in SnapProfiles
+DoSnap        == CanSnap /\ K(src) >= 2 /\ \E t \in SnapMeshes(K(src), H), f \in SnapFlags : Snap(t, f)
+DoSnapRefused == CanSnap /\ K(src) = 1 /\ \E t \in SnapMeshes(K(src), H), f \in SnapFlags : SnapRefused(t, f)
+Next == DoMakeUniform \/ DoSolve \/ MapBack \/ DoSnap \/ DoSnapRefused
 
 Spec == Init /\ [][Next]_vars
 
@@ -266,10 +273,11 @@ PartitionOf(a) ==
         /\ BetweenTotal(a, lo, hi) = hi - lo
         /\ Bot(a, r[1][1]) <= lo /\ lo < a.tops[r[1][1]]
         /\ Bot(a, r[Len(r)][1]) < hi /\ hi <= a.tops[r[Len(r)][1]]
-BetweenPartitions == PartitionOf(src) /\ (stage # "orig" => PartitionOf(dst))
+\* (a mesh only changes in stage "orig" (Snap) and when the converted assembly is made: checked there, once per mesh)
+BetweenPartitions == (stage = "orig" => PartitionOf(src)) /\ (stage = "uniform" => PartitionOf(dst))
 BlockAtOf(a) == /\ BlockAt(a, 0) = 0
                 /\ \A e \in 1..Top(a) : LET i == BlockAt(a, e) IN i \in 1..K(a) /\ Bot(a, i) < e /\ e <= a.tops[i]
-BlockAtContains == BlockAtOf(src) /\ (stage # "orig" => BlockAtOf(dst))
+BlockAtContains == (stage = "orig" => BlockAtOf(src)) /\ (stage = "uniform" => BlockAtOf(dst))
 
 \* Assembly.setBlockMesh: what is conserved by which flag
 LastAct == hist[Len(hist)]
